@@ -3,7 +3,7 @@ that are hashed, computed from types and resolved callees (not spelling).  Oblig
 cross-language contract (spec/canonical.json) and sibling families agree."""
 import json
 import os
-from astu import strip, strip_all, walk, txt, short, stmts_of, functions_by
+from astu import C, ctxt, gt_pair, eq_const, strip, strip_all, walk, txt, short, stmts_of, functions_by
 from vlib.core import ob, VERIF
 
 INT_NAMES = {"unsigned long": "u64", "long": "i64", "unsigned int": "u32", "int": "i32", "unsigned short": "u16", "short": "i16",
@@ -159,7 +159,7 @@ def simplify(chain, guards):
     canonical_double both become `canonical`"""
     toks = []
     g = " ".join(guards).replace(" ", "")
-    canon_inline = ("==0" in g) and ("isnan(" in g)
+    canon_inline = (("==0" in g) or ("(0==" in g) or ("(0.0==" in g)) and ("isnan(" in g)
     for c in chain:
         c = str(c)
         if c.startswith("implicit:"):
